@@ -82,7 +82,8 @@ def run(tier, seed):
     wd = vlib.workdir('C05')
     P = families.g_prec()
     cases = []
-    if tier == 'quick': sel = [(P[0], [3]), (P[1], [3]), (P[4], [3]), (P[5], [3]), (P[7], [3]), (P[9], [3]), (P[2], [5])]
+    PN = {g.name: g for g in P}
+    if tier == 'quick': sel = [(PN[n], [3]) for n in ('p_ll', 'p_rr', 'p_eqr', 'p_none', 'p_neg', 'p_else')] + [(PN['p_perm'], [5]), (PN['p_lr'], [5])]
     else: sel = [(g, [1, 2, 3, 4, 5]) for g in P] + [(g, [2, 3, 4]) for g in families.g_rand(seed + 300, 8, want='sr')]
     cp.run_parse_property('C05', tier, seed, sel, ['accept', 'value'], '', cp.STD_OUTSIDE + ['precedence assignments outside G-prec'], cp.STD_ASSUME, validate_cf=False, finish=False, R=R, defer=cases)
     ks = kernels(wd)
